@@ -60,15 +60,15 @@ func (b *backend) Get(ctx context.Context, r *proto.GetRequest) (resp *proto.Get
 		curRev = modRev
 	}
 
+	// the key is live at the required revision (get reports a missing or deleted key as ErrKeyNotFound),
+	// whatever its value is: an engine may hand an empty value back as nil
 	resp = &proto.GetResponse{
 		Header: responseHeader(curRev),
-	}
-	if val != nil {
-		resp.Kv = &proto.KeyValue{
+		Kv: &proto.KeyValue{
 			Key:      r.Key,
 			Value:    val,
 			Revision: modRev,
-		}
+		},
 	}
 
 	return resp, nil
